@@ -25,7 +25,9 @@ MAX_JOBS = 16
 def _env():
     env = dict(os.environ)
     env["PYTHONHASHSEED"] = "0"
-    env["PYTHONPATH"] = ROOT + os.pathsep + os.path.join(ROOT, ".deps") + os.pathsep + env.get("PYTHONPATH", "")
+    alt = os.environ.get("VERIF_REPO")
+    env["PYTHONPATH"] = (os.path.join(alt, "src") + os.pathsep if alt else "") + ROOT + os.pathsep + \
+        os.path.join(ROOT, ".deps") + os.pathsep + env.get("PYTHONPATH", "")
     env["BLUESKY_VERIF"] = "1"
     env.setdefault("MPLBACKEND", "Agg")
     return env
@@ -77,7 +79,7 @@ def run(prop, tier, seed, jobs, replay=None, keep=False):
     ensure_deps()
     sys.path.insert(0, os.path.join(ROOT, ".deps"))
     mod = importlib.import_module(f"vf.checks.{prop}")
-    work = os.path.join(ROOT, ".work", prop)
+    work = os.path.join(ROOT, ".work", f"{prop}-{os.getpid()}")
     os.makedirs(work, exist_ok=True)
     os.makedirs(os.path.join(ROOT, "evidence"), exist_ok=True)
     os.makedirs(os.path.join(ROOT, "replays"), exist_ok=True)
@@ -216,8 +218,13 @@ def run(prop, tier, seed, jobs, replay=None, keep=False):
             "wall_s": round(wall, 2),
             "violations": len(new_viol),
         }
-        with open(os.path.join(ROOT, "evidence", f"{prop}.json"), "w") as f:
+        evdir = os.environ.get("VERIF_EVIDENCE_DIR") or os.path.join(ROOT, "evidence")
+        os.makedirs(evdir, exist_ok=True)
+        with open(os.path.join(evdir, f"{prop}.json"), "w") as f:
             json.dump(ev, f, indent=1, default=str)
+    import shutil
+
+    shutil.rmtree(work, ignore_errors=True)
     print(f"{prop} tier={tier} seed={seed}: evaluations={agg.get('evaluations', 0)} held={agg.get('held', 0)} "
           f"violated={agg.get('violated', 0)} (known {sum(n for _, n in known_hit.values())}) "
           f"inconclusive={incon} skipped={agg.get('skipped', 0)} distinct={len(agg.get('keys', []))} "
